@@ -412,7 +412,72 @@ def check_blocks(facts, chk):
         chk.ok('C01.blocks', 'C01.blocks:add_file_kmers:siblings', 'ska_dict::SkaDict::add_file_kmers', 'first-k-mer block and loop block agree', evals=32)
 
 
+def check_report(facts, chk):
+    """`ska nk --full-info`: decode_kmer receives the masks in the order generate_masks returns them;
+    per-sample counts count every symbol other than '-'"""
+    MSA = 'merge_ska_array::MergeSkaArray'
+
+    def go():
+        fmt = facts.fn('<%s<IntT> as std::fmt::Debug>::fmt' % MSA)
+        eb = ExprBuilder(fmt)
+        # (lower_mask, upper_mask) = generate_masks(k): which tuple field feeds which captured name
+        cl = [c for c in facts.closures_of(fmt.name) if any((t.callee.name or '').endswith('bit_encoding::decode_kmer') for _, t in c.calls())]
+        if len(cl) != 1:
+            raise AnchorLost('Debug::fmt: closure calling decode_kmer not found')
+        c = cl[0]
+        caps = [x['name'] for x in c.captures]
+        # the closure aggregate in fmt: operands in capture order
+        agg = [s for b in fmt.blocks for s in b.stmts if s.k == 'assign' and s.rv.k == 'aggregate' and s.rv.j['kind'].get('def') == c.path]
+        if len(agg) != 1:
+            raise AnchorLost('Debug::fmt: closure construction')
+        prov = {}
+        for nm, o in zip(caps, agg[0].rv.ops):
+            e = eb.operand(o)
+            while e[0] in ('ref', 'deref'):
+                e = e[1]
+            prov[nm] = e
+        gm = facts.fn('<u64 as ska_dict::bit_encoding::UInt>::generate_masks')
+        # generate_masks returns (lower_mask, upper_mask): field 0 = lower, field 1 = upper (checked under C16.O1)
+        lo, up = prov.get('lower_mask'), prov.get('upper_mask')
+        ok_prov = lo is not None and up is not None and lo[0] == 'field' and lo[2] == 0 and up[0] == 'field' and up[2] == 1 and \
+            lo[1][0] == 'call' and lo[1][1].endswith('generate_masks') and up[1] == lo[1]
+        ebc = ExprBuilder(c)
+        t = [t for _, t in c.calls() if (t.callee.name or '').endswith('bit_encoding::decode_kmer')][0]
+        dk = facts.fn('ska_dict::bit_encoding::decode_kmer')
+        pn = [dk.local_names.get(i + 1) for i in range(dk.arg_count)]
+        an = [show(ebc.operand(a)) for a in t.args]
+        ok_args = pn == ['k', 'kmer', 'upper_mask', 'lower_mask'] and 'upper_mask' in an[2] and 'lower_mask' in an[3] and an[0].endswith('self.0')
+        # n_sample_kmers closure: 1 iff v != '-'
+        from ..absint.interp import Interp
+        from ..absint.values import BV, Agg, RefV, Cell
+        nk = facts.closures_of(MSA + '::n_sample_kmers')
+        if len(nk) != 1:
+            raise AnchorLost('n_sample_kmers closure')
+        I = Interp(facts)
+        bad = []
+        for x in range(256):
+            env = Agg('closure:' + nk[0].path, 0, [])
+            envv = RefV(Cell(env, 'env')) if nk[0].local_ty(1).startswith('&') else env
+            r = I.exec_body(nk[0], [envv, RefV(Cell(BV(8, x), 'v'))])
+            if r.val != (0 if x == 45 else 1):
+                bad.append(x)
+        return ok_prov, ok_args, bad, an
+    r = chk.guard('C01.report', 'C01.report:nk', go)
+    if r is not None:
+        ok_prov, ok_args, bad, an = r
+        if ok_prov and ok_args:
+            chk.ok('C01.report', 'C01.report:nk:masks', 'merge_ska_array', 'decode_kmer(k, kmer, upper_mask, lower_mask) with (lower, upper) = generate_masks(k): %s' % an)
+        else:
+            chk.violation('C01.report', 'C01.report:nk:masks', where='merge_ska_array',
+                          detail='mask provenance into decode_kmer: tuple fields ok=%s, argument order ok=%s (%s)' % (ok_prov, ok_args, an))
+        if bad:
+            chk.violation('C01.report', 'C01.report:nk:sample-counts', where='merge_ska_array::MergeSkaArray::n_sample_kmers', detail='per-sample count predicate differs from v != gap at bytes %s' % bad[:5])
+        else:
+            chk.ok('C01.report', 'C01.report:nk:sample-counts', 'merge_ska_array::MergeSkaArray::n_sample_kmers', "a k-mer counts for a sample iff its symbol is not '-' (256 cells)", evals=256)
+
+
 def run(facts, chk, tier, only=None):
+    chk.guard('C01.report', 'C01.report:run', lambda: check_report(facts, chk))
     chk.guard('C01.guard', 'C01.guard:run', lambda: check_guards(facts, chk))
     chk.guard('C01.args', 'C01.args:run', lambda: check_args(facts, chk))
     chk.guard('C01.canon', 'C01.canon:run', lambda: check_canon(facts, chk))
